@@ -15,6 +15,7 @@ RETURN_KINDS = ["zero", "zerofloat", "false", "emptystr", "emptylist", "emptytup
 
 def bystander(rnd, pid, flavour=None, when=None):
     flavour = flavour or rnd.choice(FLAVOURS)
+    when = when or rnd.choice(["queued", "running"])
     if flavour == "threading":
         program = rnd.choice([[["block"]], [["beat", 0.02, None]], [["sleep", 0.01]], [["beat", 0.01, 5]]])
         cleanup = {"kind": "none"}
@@ -24,9 +25,15 @@ def bystander(rnd, pid, flavour=None, when=None):
         kinds = [{"kind": "none"}, {"kind": "sync", "dur": rnd.choice([0, 0.005, 0.02])}]
         if flavour == "trio":
             kinds.append({"kind": "shielded", "dur": rnd.choice([0.01, 0.05, 0.15])})
+        if when == "queued":
+            # a stubborn worker that has to be cancelled more than once before it gives up. Only for payloads that are
+            # certainly registered before the termination begins: one whose adoption races with the failure may be started
+            # after the asyncio runner has finished closing, is then cancelled just once by asyncio.run's finalisation and
+            # blocks it forever (observed on the unchanged tree; asyncio's behaviour for tasks that swallow CancelledError)
+            kinds.append({"kind": "absorb", "times": rnd.choice([1, 1, 2, 3])})
         cleanup = rnd.choice(kinds)
     spec = {"id": pid, "flavour": flavour, "program": program, "cleanup": cleanup,
-            "when": when or rnd.choice(["queued", "running"])}
+            "when": when}
     if rnd.random() < 0.3:
         spec["args"] = rnd.choice([[1], [[1, 2]], [], ["a", 2.5]])
         spec["kwargs"] = rnd.choice([{}, {"k": 1}, {"opt": {"x": 1}}])
